@@ -5,7 +5,7 @@ V = os.path.dirname(os.path.dirname(os.path.abspath(__file__)))
 res = json.load(open(os.path.join(V, "seeded", "RESULTS.json")))
 rows = []
 cnt = {}
-for d in sorted(glob.glob(os.path.join(V, "seeded", "[STUVW]*_*"))):
+for d in sorted(glob.glob(os.path.join(V, "seeded", "[STUVWX]*_*"))):
     m = json.load(open(os.path.join(d, "meta.json")))
     r = res.get(m["id"], {})
     verdict = r.get("verdict", "not run")
@@ -31,20 +31,27 @@ for d in sorted(glob.glob(os.path.join(V, "seeded", "[STUVW]*_*"))):
             what = ln[:140]
             break
     rows.append("| %s | %s | %s | %s | %s | `%s` |" % (m["id"], ",".join(m["breaks"]), ", ".join(files), what.replace("|", "/"), verdict.replace(" (exit 2)", ""), ob.replace("|", "\\|")[:120]))
-txt = "%d breaking changes were written by independent sub-agents that saw only the text of a property and a scratch worktree of /repo (nothing from /verif), in three rounds (`S*` against the tree before the repairs, `T*` against 346b94f, `U3*` - two cooperating sites / multi-step sequences - against 53178b9)." % len(rows) + " Each was confirmed independently (`tools/confirm_seed.sh`: applies, compiles, the 95 baseline tests pass, the demo fails with it and passes without it) and is kept under `seeded/<id>/` (patch, demo, notes, confirm log, meta). `tools/seed_matrix.py` applies each to /repo, runs the checks of the properties it breaks and undoes it.\n\n"
+txt = "%d breaking changes were written by independent sub-agents that saw only the text of a property and a scratch worktree of /repo (nothing from /verif), in six rounds (`S*` against the tree before the repairs, `T*` against 346b94f, `U3*` - two cooperating sites / multi-step sequences - and `V4*` - one-line slips - against 53178b9, `W5*` for C20 and `X6*` for C13 against d243e00)." % len(rows) + " Each was confirmed independently (`tools/confirm_seed.sh`: applies, compiles, the 95 baseline tests pass, the demo fails with it and passes without it) and is kept under `seeded/<id>/` (patch, demo, notes, confirm log, meta). `tools/seed_matrix.py` applies each to /repo, runs the checks of the properties it breaks and undoes it.\n\n"
 txt += "**Result: %s.** No seeded change is accepted as holding (exit 0). The undecided ones left the subset the verifier can read (array-of-&mut iteration, iterator-chain rewrites, `continue` inside `for`, a call to a function the unit does not contain, a newly extracted helper): the check says exit 2 'unsupported construct', never 'holds'.\n\n" % ", ".join("%d %s" % (v, k) for k, v in sorted(cnt.items()))
 txt += "| id | breaks | file(s) | what the change does | verdict | failing obligation / reason |\n|---|---|---|---|---|---|\n" + "\n".join(rows) + "\n\n"
 nt = os.path.join(V, "neutral", "RESULTS.txt")
 if os.path.exists(nt):
-    lines = [l.strip() for l in open(nt) if l.startswith("NEU")]
-    rc = {}
-    for l in lines:
-        m = re.search(r"rc=(\d)", l)
+    last = {}
+    for l in open(nt):
+        m = re.search(r"NEU (\d+) (C\d\d) rc=(\d)", l)
         if m:
-            rc[m.group(1)] = rc.get(m.group(1), 0) + 1
-    txt += "**False-alarm test.** %d behaviour-preserving refactorings (`neutral/N*/`: renamed locals, reordered independent statements, `match` vs `if let`, hoisted expressions, early return vs if/else, ...) were written by another independent sub-agent over the verified functions and run through the same checks (`tools/run_neutral.sh`): %s. " % (
-        len(set(l.split()[1] for l in lines)), ", ".join("%s runs exit %s" % (v, k) for k, v in sorted(rc.items())))
-    txt += "The first runs of this test produced **two false alarms**, both repaired in the machinery (never by loosening a contract): a loop bound hoisted into a local made the `decreases` clause of `crypt_package` unprovable (extracted functions are since verified with loop isolation off), and an explicit `value.into()` before a generic setter could not be related to the contract's `sp_into` (now defined through vstd's `IntoSpec`). Besides, outline anchors accept renamed closure parameters, `Cells::add/remove` verify without proof hints, and loops are found by their header rather than their ordinal. Exit 2 remains the answer when a refactoring rewrites an outlined statement.\n"
+            last[(int(m.group(1)), m.group(2))] = m.group(3)      # the latest run of a (refactoring, property) pair counts
+    rc = {}
+    for v in last.values():
+        rc[v] = rc.get(v, 0) + 1
+    txt += "**False-alarm test.** %d behaviour-preserving refactorings (`neutral/N*/`: renamed locals, reordered independent statements, `match` vs `if let`, hoisted expressions, early return vs if/else, loops rewritten, added `debug_assert!`s, extracted helpers, ...) were written by independent sub-agents over the verified functions in four batches and run through the same checks (`tools/run_neutral.sh`; `neutral/RESULTS.txt` keeps every run, the latest run of each pair counts): %s. " % (
+        len(set(k[0] for k in last)), ", ".join("%s runs exit %s" % (v, k) for k, v in sorted(rc.items())))
+    txt += ("This test produced **four kinds of false alarm** (exit 1 on code where the property holds), every one repaired in the machinery and never by loosening a contract: "
+            "(1) N15: a loop bound hoisted into a local made the `decreases` clause of `crypt_package` unprovable (extracted functions are since verified with loop isolation off); "
+            "(2) N36: an explicit `value.into()` before a generic setter could not be related to the contract's `sp_into` (now defined through vstd's `IntoSpec`); "
+            "(3) N40/N42/N43: added `debug_assert!`s about std collections that Verus cannot prove were reported as violations (a failing obligation whose span lies in a std macro is now *undecided*, section 2.4); "
+            "(4) N60: two option getters hoisted out of the CSV loops left a `!= \"\"` test and a `format!` outside their outlines - Verus accepts both silently without giving them a meaning, the field assertion failed (a failure in a function that no longer matches its template, or that contains such an opaque macro, is now *undecided*, section 2.4). "
+            "Besides, outline anchors accept renamed closure parameters, `Cells::add/remove` verify without proof hints, loops are found by their header rather than their ordinal, and every reported failure is re-verified with its function alone (solver-instability guard). Exit 2 remains the answer when a refactoring rewrites an outlined statement.\n")
 s = open(os.path.join(V, "DESIGN.md")).read()
 i = s.index("<!--SEEDED-BEGIN-->") + len("<!--SEEDED-BEGIN-->")
 j = s.index("<!--SEEDED-END-->")
